@@ -105,6 +105,7 @@ func genC04(rng *rand.Rand, tier string) *sim.Plan {
 		}
 		p.Phases = append(p.Phases, ph)
 	}
+	maybeRedis(rng, p, 0.2)
 	return p
 }
 
